@@ -1932,7 +1932,7 @@ func (schema *Schema) visitJSONObject(settings *schemaValidationSettings, value 
 
 			if f := settings.defaultsSet; f != nil && value[propName] == nil {
 				if dflt := propSchema.Value.Default; dflt != nil && !reqRO && !repWO {
-					value[propName] = dflt
+					value[propName] = deepcopy.Copy(dflt) // never hand the document's own default to the request
 					settings.onceSettingDefaults.Do(f)
 				}
 			}
